@@ -6,6 +6,7 @@
 mod common;
 mod env;
 mod kit;
+mod h3c;
 mod l2;
 mod props;
 mod script;
